@@ -26,12 +26,30 @@ Tuples(k) == IF k = 1 THEN {<<i>> : i \in 1..NDecl}
              ELSE {t \in (1..NDecl) \X (1..NDecl) \X (1..NDecl) : t[1] < t[2] /\ t[2] < t[3]}
 AllTuples == UNION {Tuples(k) : k \in 1..MaxDecl}
 
+\* request URLs: the declared host with every path, plus host-shape variants - one more host label (equal to
+\* a path literal) and one label fewer with the missing label as first path segment
+HostLong  == <<"a", "com", "x">>
+HostShort == <<"a">>
 Urls == UrlsOver({HostA}, ULits, MaxUrl)
+        \cup UrlsOver({HostLong}, ULits, 1)
+        \cup {Mk(HostShort, <<"com">> \o s) : s \in SeqsUpTo({"x"}, 2)}
 Reqs == {[m |-> m, u |-> u] : m \in Methods, u \in Urls}
+
+\* Plugins of the declarations of a configuration. One mode assignment per configuration, chosen by the
+\* index tuple: all "on", or exactly one declaration
+\*   "off"   its remedy and its diagnosis are declared but disabled
+\*   "none"  it declares no plugin at all
+\*   "donly" its remedy is disabled, its diagnosis enabled
+RECURSIVE SumIdx(_)
+SumIdx(s) == IF Len(s) = 0 THEN 0 ELSE s[1] + SumIdx(Tail(s))
+ModeOf(t, i) == LET n == Len(t)  k == SumIdx(t) % (3 * n + 1) IN
+                IF k = i THEN "off" ELSE IF k = n + i THEN "none" ELSE IF k = 2 * n + i THEN "donly" ELSE "on"
 
 \* the declarations of a configuration with their identities (id = position in the tuple)
 DeclsOf(t) == [i \in 1..Len(t) |-> [m |-> DeclSeq[t[i]].m, p |-> DeclSeq[t[i]].p, id |-> i,
-                                     r |-> "d" \o ToString(i), g |-> "g" \o ToString(i)]]
+                                     r |-> "d" \o ToString(i), g |-> "g" \o ToString(i),
+                                     pl |-> ModeOf(t, i),
+                                     re |-> ModeOf(t, i) = "on", ge |-> ModeOf(t, i) \in {"on", "donly"}]]
 Orders(k) == Permutations(1..k)
 Apply(ds, ord) == [i \in 1..Len(ds) |-> ds[ord[i]]]
 ================================================================================
